@@ -63,7 +63,8 @@ def main():
                 tgt = os.path.join("/verif/seeded", sid)
                 os.makedirs(tgt, exist_ok=True)
                 # regenerate the patch against current HEAD so that it applies cleanly later
-                rc, diff = sh(["git", "-C", wt, "diff"])
+                sh(["git", "-C", wt, "add", "-A"])
+                rc, diff = sh(["git", "-C", wt, "diff", "--cached"])
                 open(os.path.join(tgt, "patch.diff"), "w").write(diff)
                 shutil.copy(os.path.join(d, "demo_test.go"), os.path.join(tgt, "demo_test.go"))
                 notes = open(os.path.join(d, "notes.md")).read() if os.path.exists(os.path.join(d, "notes.md")) else ""
